@@ -109,6 +109,8 @@ package bluemonday
 //@   sets sanRes = result
 //@   ensures[C02] attrsGood(p, elementName, result)
 //@   ensures[C03] p.requireParseableURLs ==> urlsOK(p, elementName, result)
+//@   ensures[C12] p.requireCrossOriginAnonymous && coEl(elementName) && len(result) > 0 ==> hasKey(result, "crossorigin") && (forall i int :: 0 <= i && i < len(result) && result[i].Key == "crossorigin" ==> result[i].Val == "anonymous")
+//@   ensures[C12] p.requireSandboxOnIFrame != nil && elementName == "iframe" && len(result) > 0 ==> hasKey(result, "sandbox") && (forall i int :: 0 <= i && i < len(result) && result[i].Key == "sandbox" ==> sandboxOK(p, result[i].Val))
 //@   loop 1 "for _, htmlAttr := range attrs"
 //@     invariant[C02] attrsAdm(p, elementName, cleanAttrs)
 //@   loop 4 "for _, htmlAttr := range cleanAttrs"
@@ -129,12 +131,22 @@ package bluemonday
 //@     invariant[C03] p.requireParseableURLs ==> urlsOK(p, elementName, tmpAttrs)
 //@     invariant forall i int :: 0 <= i && i < len(cleanAttrs) ==> cleanAttrs[i] == pre(cleanAttrs[i])
 //@   loop 8 "for i, htmlAttr := range cleanAttrs"
+//@     invariant[C12] crossOriginFound <==> (exists i int :: 0 <= i && i <= rangeindex && cleanAttrs[i].Key == "crossorigin")
+//@     invariant[C12] forall i int :: 0 <= i && i <= rangeindex && cleanAttrs[i].Key == "crossorigin" ==> cleanAttrs[i].Val == "anonymous"
+//@     invariant[C12] rangeindex < len(cleanAttrs)
 //@     invariant[C02] attrsGood(p, elementName, cleanAttrs)
 //@     invariant[C03] p.requireParseableURLs ==> urlsOK(p, elementName, cleanAttrs)
 //@   loop 9 "for i, htmlAttr := range cleanAttrs"
+//@     invariant[C12] sandboxFound <==> (exists i int :: 0 <= i && i <= rangeindex && cleanAttrs[i].Key == "sandbox")
+//@     invariant[C12] forall i int :: 0 <= i && i <= rangeindex && cleanAttrs[i].Key == "sandbox" ==> sandboxOK(p, cleanAttrs[i].Val)
+//@     invariant[C12] rangeindex < len(cleanAttrs)
 //@     invariant[C02] attrsGood(p, elementName, cleanAttrs)
 //@     invariant[C03] p.requireParseableURLs ==> urlsOK(p, elementName, cleanAttrs)
 //@   loop 10 "for _, val := range strings.Fields(htmlAttr.Val)"
+//@     invariant[C12] forall j int :: 0 <= j && j < len(cleanVals) ==> (cleanVals[j] in p.requireSandboxOnIFrame && p.requireSandboxOnIFrame[cleanVals[j]] && cleanVals[j] in cleanValsSet && cleanValsSet[cleanVals[j]])
+//@     invariant[C12] forall s string :: s in cleanValsSet && cleanValsSet[s] ==> (exists j int :: 0 <= j && j < len(cleanVals) && cleanVals[j] == s)
+//@     invariant[C12] forall j int, k int :: 0 <= j && j < k && k < len(cleanVals) ==> cleanVals[j] != cleanVals[k]
+//@     invariant[C12] forall i int :: 0 <= i && i < len(cleanAttrs) ==> cleanAttrs[i] == pre(cleanAttrs[i])
 //@     invariant[C02] attrsGood(p, elementName, cleanAttrs)
 //@     invariant[C03] p.requireParseableURLs ==> urlsOK(p, elementName, cleanAttrs)
 
